@@ -8,6 +8,16 @@ VERIF = os.path.dirname(os.path.dirname(os.path.abspath(__file__)))
 BASELINE_OFF = "/verif/tool/baseline.sh"
 
 CLAIMED = {
+    "C07": dict(
+        technique="static analysis: constants of EclIOdata.hpp against the published layout, switch/table pairing, write/read sequence extraction of the 16-byte header, bracket (head-data-tail) order rule per block loop, endian-flip pairing, sibling agreement of the block-geometry derivation (rational normal form), size formula normal form (clang AST)",
+        text="Decides: the 28 layout constants equal the published Eclipse values (also catches symmetric changes the round-trip tests cannot see); both block tables pair each array type with its own constants; the binary header is written and read as 4+8+4+4+4 with both markers byte-swapped and checked; the formatted header is 30 characters; every block is written head-data-tail with head = tail = swapped byte count and the reader checks element-count range, short blocks and head == tail; each numeric type crosses the swap of its own type once in each direction; writer, reader and sizeOnDisk derive the block geometry identically incl. the C0NN adjustment; type strings map to the same enumerator in both directions; LOGI encoding; the sizeOnDiskBinary formula. Not decided: value round trip, number formatting (make_real_string_*), behaviour at specific lengths.",
+        note="Trusted: tables/ecl_layout.json (published format constants).",
+        design="DESIGN.md §4 C07"),
+    "C08": dict(
+        technique="static analysis: who-opens-how rule on the stream factories, statement-order rule on Restart::openExisting/openUnified, shape rule on the write-position search, and a cross-module agreement between the header bytes the writer emits (C07) and the bytes the rewind arithmetic subtracts",
+        text="Decides the rewind protocol: existing unified files are opened in append mode only; openExisting is open -> (no position: return) -> resize_file(fname, writePos) -> seek to end, throwing on failure; nothing else truncates; openUnified creates / rejects a non-restart file / reopens at restartStepWritePosition(step); the position is lower_bound on the ordered step index (-1 if all stored steps are smaller); seekPosition subtracts exactly the 24 bytes / 30 characters the writer's header emits; unified output starts each step with SEQNUM. Not decided: byte-for-byte preservation of earlier steps and the crash clause (every truncation point reads back or raises) - these quantify over write histories and crash points and need fault enumeration at run time.",
+        note="Trusted: C07.header_sums for the writer side. The crash/truncation clause of the property is explicitly not covered.",
+        design="DESIGN.md §4 C08"),
     "C03": dict(
         technique="static analysis: copy-on-write / ownership rules - API inventory of ptr_member/map_member, intraprocedural alias-use classification of every handle obtained from shared storage, write-through detection on shared_ptr members with clone-then-modify dominance, who-may-write tables (clang AST of all 364 library units)",
         text="Decides the structural necessary condition of causality: nothing writes through storage shared between ScheduleState snapshots. ptr_member can only hand out const references; each of the ~110 call sites of a map_member accessor that can yield a mutable handle (and every iteration over a map_member) is classified (copied / const / mutable escape) and mutable escapes are confined to an allow-list with reasons; member functions of the 4 classes with shared_ptr members never write through them unless the member was re-pointed to a fresh copy earlier on every path; callers of the two in-place connection mutators clone first; snapshots[arithmetic index] is only read; writes to Schedule members other than snapshots come from an enumerated table; no hidden static state; the next report step is a copy with every per-step member reset. Not decided: splitting of the input into blocks, equality of states under truncation of the input.",
